@@ -236,9 +236,10 @@ def r2_offset_discipline(ctx, sym):
     ctx.analysed_function(core, loc)
     # (locate() itself is executed by the offset rule below: a node of line 5 must be located on 5 + offset)
     vis = ctx.repo.module(TIFA_VISITOR)
-    from .c18 import line_offset_rule, tifa_cache_offset_rule
+    from .c18 import line_offset_rule, tifa_cache_offset_rule, borrowed_position_rule
     line_offset_rule(ctx, sym, 'R2')
     tifa_cache_offset_rule(ctx, sym, 'R2')
+    borrowed_position_rule(ctx, sym, 'R2')
     # every feedback issued by TIFA gets its location from locate()
     n_issue = 0
     for m in (core, vis):
@@ -484,16 +485,22 @@ def r4_restoration(ctx, sym, mod):
                       "stop_any_sections() pops someone else's substitution")
     sa = mod.func('stop_any_sections')
     ctx.analysed_function(mod, sa)
-    for active in (True, False):
+    for active in (True, 'prologue', 'second section', False):
         sess = Session(ctx, sym, mod, SAMPLES[0], True)
         if active:
-            if sess.separate() is not None or sess.next_section() is not None:
+            if sess.separate() is not None:
+                continue
+            # (resolving may happen before the first next_section(): the prologue, section number 0, is active then)
+            steps = {'prologue': 0, True: 1, 'second section': 2}[active]
+            if any(sess.next_section() is not None for _ in range(steps)):
                 continue
         e = sess._run('stop_any_sections', [], {'report': sess.report})
         ok = e is None and sess.submission.attrs['main_code'] == SAMPLES[0] and not sess.source.get('substitutions')
-        ctx.check(ok, 'R4', 'stop_any_sections[%s]' % ('sections active' if active else 'no sections'), mod, sa,
+        label = {True: 'sections active', 'prologue': 'prologue active', 'second section': 'second section active',
+                 False: 'no sections'}[active]
+        ctx.check(ok, 'R4', 'stop_any_sections[%s]' % label, mod, sa,
                   "stop_any_sections with %s %s; main code %r" % (
-                      'sections active' if active else 'no sections',
+                      label,
                       'returns' if e is None else 'raises %s' % e.kind, sess.submission.attrs['main_code'][:30]),
                   "resolving leaves the last section as main code")
     # hook agreement
